@@ -7,6 +7,7 @@ model; ETags harvested through the PUT response, GET/HEAD, PROPFIND and REPORT m
 content, differ whenever content differs (checked as a bijection with the model's content ids) and 412 must
 leave the store unchanged.
 """
+import os
 import davsim
 
 PROP_FILES = ["Props/C08.lean"]
@@ -50,8 +51,56 @@ def four_ways(ctx, sim, coll, href, put_etag, case):
         ctx.violation("the ETag of one item differs between PUT response, GET/HEAD, PROPFIND and REPORT", dict(case, etags=seen))
 
 
+def cache_free_etag(app, path):
+    """the ETag a server without any item cache gives for `path`: a scratch application on a copy of the collection tree
+    (reference for the precondition oracle - the application under test reads ETags out of its cache)"""
+    import shutil
+    import tempfile
+    from common import App
+    tmp = tempfile.mkdtemp(prefix="rverif-c08ref-")
+    try:
+        shutil.copytree(os.path.join(app.folder, "collection-root"), os.path.join(tmp, "collection-root"),
+                        ignore=shutil.ignore_patterns(".Radicale.cache", ".Radicale.lock"))
+        with App({"auth": {"type": "none"}}, folder=tmp) as ref:
+            st, hd, _ = ref.request("HEAD", path, login="u:pw")
+        return hd.get("ETag") if st == 200 else None
+    finally:
+        shutil.rmtree(tmp, ignore_errors=True)
+
+
+def member_etags(app, coll):
+    from common import parse_multistatus
+    st, _, text = app.request("PROPFIND", coll, '<?xml version="1.0"?><D:propfind xmlns:D="DAV:"><D:prop><D:getetag/></D:prop></D:propfind>',
+                              login="u:pw", HTTP_DEPTH="1")
+    if st != 207:
+        return None
+    ms, order, _ = parse_multistatus(text)
+    return {h: (p["D:getetag"][1].text if isinstance(p, dict) and "D:getetag" in p else None) for h, p in ms.items() if h.rstrip("/") != coll.rstrip("/")}
+
+
+def cache_free_member_etags(app, coll):
+    import shutil
+    import tempfile
+    from common import App
+    tmp = tempfile.mkdtemp(prefix="rverif-c08ref-")
+    try:
+        shutil.copytree(os.path.join(app.folder, "collection-root"), os.path.join(tmp, "collection-root"),
+                        ignore=shutil.ignore_patterns(".Radicale.cache", ".Radicale.lock"))
+        with App({"auth": {"type": "none"}}, folder=tmp) as ref:
+            return member_etags(ref, coll)
+    finally:
+        shutil.rmtree(tmp, ignore_errors=True)
+
+
+STORAGE_VARIANTS = [None, None, {"storage": {"use_cache_subfolder_for_item": "True"}}, {"storage": {"use_mtime_and_size_for_item_cache": "True"}},
+                    {"storage": {"use_cache_subfolder_for_item": "True", "use_mtime_and_size_for_item_cache": "True"}},
+                    {"storage": {"filesystem_cache_folder": "@tmp", "use_cache_subfolder_for_item": "True"}}]
+
+
 def run_history(ctx, rng, length, hid):
-    sim = davsim.Sim(ctx)
+    # ETags come out of the item cache: the cache layouts and keying modes are part of the histories
+    variant = STORAGE_VARIANTS[hid % len(STORAGE_VARIANTS)]
+    sim = davsim.Sim(ctx, conf=variant)
     reqs = []
     etag_of_content = {}     # stored text -> etag
     coll_etags = {}          # collection ETag -> state signature
@@ -100,14 +149,26 @@ def run_history(ctx, rng, length, hid):
                     r["if_none_match_star"] = True
             reqs.append(r)
             before = sim.real_dump()
+            true_before = cache_free_etag(sim.app, "/" + "/".join(r["path"])) if r.get("if_match_present") else None
             obs, ans, diffs = sim.step(r, "u")
             st = obs["status"]
-            case = {"history": reqs}
+            case = {"history": reqs, "storage_options": (variant or {}).get("storage", {})}
             ctx.case("%s:%s:%d" % (r["method"], "cond" if r.get("if_match_present") or r.get("if_none_match_star") else "plain", st),
                      sample={"request": {k2: v for k2, v in r.items() if k2 != "objs"}, "status": st}, key=[hid, i],
                      nontrivial=bool(r.get("if_match_present") or r.get("if_none_match_star")))
             if st == 412 and sim.real_dump() != before:
                 ctx.violation("412 Precondition Failed but the store changed", case)
+            # after a write that replaces or renames members: the ETags the server reports are those of the stored contents (a reference
+            # server without item cache on a copy of the collection tree reports the same) - an ETag left over from replaced content would let a
+            # stale If-Match through
+            if st < 300 and ((r["method"] == "PUT" and r.get("as_collection")) or r["method"] == "MOVE"):
+                for cp in {"/" + "/".join(r["path"] if r.get("as_collection") else r["path"][:-1]) + "/"} | (
+                        {"/" + "/".join(r["dest"][:-1]) + "/"} if r["method"] == "MOVE" else set()):
+                    mine, ref = member_etags(sim.app, cp), cache_free_member_etags(sim.app, cp)
+                    if mine is not None and ref is not None and mine != ref:
+                        bad = {h: (mine.get(h), ref.get(h)) for h in set(mine) | set(ref) if mine.get(h) != ref.get(h)}
+                        ctx.violation("after %s the server reports ETags that are not those of the stored contents (reported, read without item cache): %s"
+                                      % (r["method"], bad), case)
             # oracle for the conditions themselves
             if r["method"] in ("PUT", "DELETE") and not r.get("as_collection") and st < 300:
                 tgt_before = None
@@ -118,6 +179,9 @@ def run_history(ctx, rng, length, hid):
                                 tgt_before = it["etag_raw"]
                 if r.get("if_match_present") and not (r["method"] == "DELETE" and r["if_match_value"] == "*") and tgt_before != r["if_match_value"]:
                     ctx.violation("request with If-Match %r carried out although the current ETag was %r" % (r["if_match_value"], tgt_before), case)
+                if r.get("if_match_present") and r["if_match_value"] != "*" and true_before != r["if_match_value"]:
+                    ctx.violation("lost update: a request with If-Match %r was carried out although the stored resource (read without the item "
+                                  "cache) has the ETag %r" % (r["if_match_value"], true_before), case)
                 if r.get("if_none_match_star") and tgt_before is not None:
                     ctx.violation("PUT with If-None-Match: * carried out although the resource existed", case)
             if r["method"] == "PUT" and not r.get("as_collection") and st == 201:
